@@ -173,13 +173,15 @@ class PDict:
 
 
 class SArr:
-    """NumPy array of reals, 1-D (`n`) or 2-D (`shape`), contents a z3 Array term (functional updates)."""
-    __slots__ = ("arr", "n", "shape", "oid")
+    """NumPy array of reals, 1-D (`n`) or 2-D (`shape`), contents a z3 Array term (functional updates).
+    envlink = (IDX array Name->Int, ENV array Name->Real): this array is the point x with x[IDX[name]] = ENV[name]."""
+    __slots__ = ("arr", "n", "shape", "oid", "envlink")
 
-    def __init__(self, arr, n=None, shape=None):
+    def __init__(self, arr, n=None, shape=None, envlink=None):
         self.arr = arr
         self.n = n
         self.shape = shape
+        self.envlink = envlink
         _oid[0] += 1
         self.oid = _oid[0]
 
@@ -189,12 +191,13 @@ class SArr:
 
 class SMap:
     """Symbolic dict name -> int/real given by an indomain predicate and a lookup function."""
-    __slots__ = ("indom", "lookup", "desc")
+    __slots__ = ("indom", "lookup", "desc", "idx")
 
     def __init__(self, indom: Callable[[Any], Any], lookup: Callable[[Any], Any], desc=""):
         self.indom = indom
         self.lookup = lookup
         self.desc = desc
+        self.idx = None
 
     def __repr__(self):
         return f"SMap({self.desc})"
